@@ -80,7 +80,8 @@ def month_of_native(v):
         return v if 1 <= v <= 12 else None
     if isinstance(v, str):
         if v.isascii() and v.isdigit() and len(v) > 0:
-            return int(v) if 1 <= int(v) <= 12 else None
+            sig = v.lstrip("0")       # a decimal string of any length (int() itself refuses more than 4300 digits)
+            return int(sig) if 1 <= len(sig) <= 2 and 1 <= int(sig) <= 12 else None
         low = v.lower()
         for i in range(12):
             if low == ABBR[i] or low == FULL[i].lower():
@@ -208,6 +209,37 @@ def task_str(L, prefix="", family="word"):
             rec.samples.append({"month value": eng.model_str(m, v)})
             rec.validated += 1
     return rec.result(L=L, worlds=len(worlds))
+
+
+def task_pumped(L, n=5000):
+    """size clause of "no value whatsoever makes the middleware raise": every execution path of the numeric family of
+    length L gives solver witnesses; each is replayed on the real code with every character repeated n times"""
+    eng = Engine()
+    rec = Recorder(eng)
+    v = eng.sym_str("c", L, DIGITS)
+    worlds = eng.run(drv_one, [v, True])
+    import z3
+    E = eng.I.models.eq_simple
+    for W in worlds:
+        block = []
+        for _ in range(3):
+            sat, m = eng.query(W, z3.And(block) if block else True)
+            if not sat:
+                break
+            inp = eng.model_str(m, v)
+            for i in range(len(inp)):
+                big = inp[:i] + inp[i] * n + inp[i + 1:]
+                r = replay_one(big)
+                rec.validated += 1
+                if r is not None:
+                    r["input"] = r["input"][:12] + f"...({len(big)} characters: {inp!r} with character {i} repeated {n} times)"
+                    r["tag"] = "pumped-value"
+                    r["expected"] = str(r["expected"])[:60]
+                    rec.violations.append(r)
+                    return rec.result(worlds=len(worlds))
+            block.append(z3.Not(b_z3(E(v, inp))))
+        rec.witness("pumped", W)
+    return rec.result(worlds=len(worlds))
 
 
 def task_int(lo, hi):
@@ -370,7 +402,7 @@ def main():
                   "int values": list(ir), "pairs": "all 9 ordered pairs on both string families and ints 1..12; all 27 ordered triples on ints 1..12 and strings of length 1..3"}
     chk.assumptions = ["values outside the alphabet / longer than 9 characters / non-str non-int values are outside the claim",
                        "a 'digit string' in the statement is read as ASCII decimal digits; non-ASCII digit characters (² ٣) are non-months and must be returned unchanged without an exception"]
-    chk.expected_vacuity = ["int-converted", "abbr-converted", "long-converted", "pair-on-month", "two-entries"]
+    chk.expected_vacuity = ["int-converted", "abbr-converted", "long-converted", "pair-on-month", "two-entries", "pumped"]
     for L in range(LS, -1, -1):
         chk.add_task(f"str-L{L}", task_str, L=L)
     for L in range(LD, 0, -1):
@@ -384,6 +416,9 @@ def main():
         for L1 in (3, 2, 1):
             for L2 in (3, 2, 1):
                 chk.add_task(f"two-{kind}-{L1}+{L2}", task_two, L1=L1, L2=L2, kind=kind)
+    chk.bounds["pumped values"] = "every execution path of the numeric family of length 1..2: up to 3 solver witnesses, each replayed on the real code with every character repeated 5000 times (longer than the interpreter's limit for int())"
+    for L in (2, 1):
+        chk.add_task(f"pumped-L{L}", task_pumped, L=L)
     chk.add_task("int", task_int, lo=ir[0], hi=ir[1])
     chk.add_task("absent", task_absent)
     for ka in MWS:
